@@ -162,6 +162,11 @@ class PGenList(PList):
         return self.core['univ']
 
     @property
+    def dead(self):
+        """a list that received an unknown prefix of another list (the copying loop raised): nothing is known of it"""
+        return bool(self.core.get('dead'))
+
+    @property
     def items(self):
         raise Unsupported('operation that enumerates a list of unknown length (outside the loop rule)')
 
